@@ -67,6 +67,11 @@ impl vstd::std_specs::convert::FromSpecImpl<u16> for FiniteF64 {
     open spec fn from_spec(v: u16) -> Self { f_of_int(v as int) }
 }
 impl From<u16> for FiniteF64 { #[verifier::external_body] fn from(v: u16) -> Self { unimplemented!() } }
+impl vstd::std_specs::convert::FromSpecImpl<i8> for FiniteF64 {
+    open spec fn obeys_from_spec() -> bool { true }
+    open spec fn from_spec(v: i8) -> Self { f_of_int(v as int) }
+}
+impl From<i8> for FiniteF64 { #[verifier::external_body] fn from(v: i8) -> Self { unimplemented!() } }
 
 // ---- f64 <-> integer conversions used around FiniteF64 ----
 /// integer value of a double produced from an integer (uninterpreted; only facts below are known)
